@@ -104,14 +104,10 @@ class W:
         a = AstEval(ctx_name, GlobalContextMgr.get(ctx_name))
         Function.install_ast_funcs(a)
         a.parse(src)
-        if a.get_exception_obj():
-            raise a.get_exception_obj()
-        r = await a.eval()
-        exc = a.get_exception_obj()
-        await settle(self.loop)
-        if exc:
-            raise exc
-        return r
+        try:
+            return await a.eval()
+        finally:
+            await settle(self.loop)
 
     def write(self, rel, text, mtime=None):
         p = os.path.join(self.pdir, rel)
